@@ -276,10 +276,22 @@ def run_instance(p):
             lt = type(m.seed.get_submodule(layer)).__name__ if layer else 'model'
             zero = 0 in spec['w'] and spec['wtype'] == 'channel'
             direction = ''
+            unrec = ''
             if obs in tot:
                 cv = st.model_value(mm, costs[obs]) if st.is_sym(costs[obs]) else costs[obs]
                 direction = '|cost<exact' if cv < tot[obs] else '|cost>exact'
-            key = ('train+hard|' if p.get('train_hard') else '') + (f'after_use+{hist}|' if hist else '') + f'{obs}|layer:{lt}|search:{"per_channel+0bit" if zero else ("per_channel" if spec["wtype"] == "channel" else "per_layer")}|{mpslib.prog_id(spec)}{direction}' + ('|selftest' if selftest else '')
+                if zero and cv < tot[obs]:
+                    # the recorded finding (per-channel search with 0 bit) in executable form: every layer is charged its exact cost times
+                    # (alive output channels / output channels) - the share of each precision is applied to the already reduced channel count.
+                    # Any other value below the exact cost is a different defect.
+                    recorded = Fraction(0)
+                    for l_, v_ in per.items():
+                        mod_ = m.seed.get_submodule(l_)
+                        cout_ = mod_.out_features if isinstance(mod_, MPSLinear) else mod_.out_channels
+                        recorded += Fraction(v_[obs]) * Fraction(v_['out_alive'], cout_)
+                    if abs(Fraction(cv) - recorded) > Fraction(1, 10 ** 6) * max(1, abs(recorded)):
+                        unrec = 'unrecorded|'
+            key = unrec + ('train+hard|' if p.get('train_hard') else '') + (f'after_use+{hist}|' if hist else '') + f'{obs}|layer:{lt}|search:{"per_channel+0bit" if zero else ("per_channel" if spec["wtype"] == "channel" else "per_layer")}|{mpslib.prog_id(spec)}{direction}' + ('|selftest' if selftest else '')
             if any(v['key'] == key for v in res.violations):
                 continue
             rec = {'spec': spec, 'wseed': wseed, 'alphas': alphas, 'observable': obs, 'layer': layer, 'key': key, 'summary': summ, 'train_hard': p.get('train_hard', False), 'hist': hist,
